@@ -141,16 +141,26 @@ def run_kind(kind, model, df, **kw):
         return mc.steady_state(model, mc_to_scan=df, **kw)
     if kind == "mc.time_course":
         return mc.time_course(model, time_points=tp, mc_to_scan=df, **kw)
+    if kind == "mc.protocol":
+        return mc.protocol(model, mc_to_scan=df, protocol=proto, time_points_per_step=2, **kw)
+    if kind == "mc.protocol_time_course":
+        return mc.protocol_time_course(model, mc_to_scan=df, protocol=proto, time_points=np.array([0.5, 1.5, 2.0]), **kw)
     raise ValueError(kind)
 
 
-def row_reference(model_kind, kind, row):
+# the `y0=` argument of every scan: values for variables, applied before the row's own values
+Y0 = {None: None, "y": {"y": 0.7}, "xy": {"x": 9.0, "y": 0.7}}
+
+
+def row_reference(model_kind, kind, row, y0=None):
     """Independent simulation of ONE row on a fresh model; returns {'variables': frame-dict, 'fluxes': ...} or None."""
     import mxlpy
     import numpy as np
     from mxlpy import Simulator
 
     m = make_model(model_kind)
+    if y0:
+        m.update_variables(dict(y0))
     m.update_variables({k: v for k, v in row.items() if k in m.get_variable_names()})
     m.update_parameters({k: v for k, v in row.items() if k in m.get_parameter_names()})
     try:
@@ -198,7 +208,7 @@ def row_views(sc, kind, label, pos):
     return (lambda: sim.variables), (lambda: sim.fluxes)
 
 
-def compare_rows(sc, kind, model_kind, df, read_order, view_first, txt, nt, expect_fail=()):
+def compare_rows(sc, kind, model_kind, df, read_order, view_first, txt, nt, expect_fail=(), y0=None):
     """Read per-row views in the given order and compare with the per-row references."""
     import numpy as np
 
@@ -226,7 +236,7 @@ def compare_rows(sc, kind, model_kind, df, read_order, view_first, txt, nt, expe
                                detail=f"reading {name} of row {pos} raised {type(exc).__name__}: {str(exc)[:150]} | {txt}")
     for pos, label in enumerate(labels):
         row = {c: float(df.iloc[pos][c]) for c in df.columns}
-        ref = row_reference(model_kind, kind, row)
+        ref = row_reference(model_kind, kind, row, y0)
         for name in ("variables", "fluxes"):
             g = got[(pos, name)]
             if ref is None:
@@ -271,11 +281,15 @@ def check_seq(c):
     df = make_df(table(c["table"], c["rows"]), labels=c.get("labels"))
     txt = f"{c}"
     nt = c["rows"] > 1
+    y0 = Y0[c.get("y0")]
+    kw = {"parallel": False} if not c["kind"].startswith("mc.") else {"max_workers": 1}
+    if y0 is not None:
+        kw["y0"] = dict(y0)
     try:
-        sc = run_kind(c["kind"], make_model(c["model"]), df, parallel=False)
+        sc = run_kind(c["kind"], make_model(c["model"]), df, **kw)
     except Exception as exc:  # noqa: BLE001
         return outcome(False, "scan-raised", symptom=f"scan-raised:{type(exc).__name__}", nontrivial=nt, detail=f"{type(exc).__name__}: {str(exc)[:200]} | {txt}")
-    bad = compare_rows(sc, c["kind"], c["model"], df, c["read"], c["view_first"], txt, nt)
+    bad = compare_rows(sc, c["kind"], c["model"], df, c["read"], c["view_first"], txt, nt, y0=y0)
     return bad if bad is not None else outcome(True, "rows-equal", nontrivial=nt)
 
 
@@ -425,14 +439,19 @@ def generate(tier):
                     cases.append({"family": "seq", "model": model, "table": tbl, "kind": kind, "rows": rows, "read": list(read), "view_first": vf})
         cases.append({"family": "seq", "model": model, "table": tbl, "kind": kind, "rows": 5, "read": [4, 0, 3, 1, 2], "view_first": "fluxes"})
         cases.append({"family": "seq", "model": model, "table": tbl, "kind": kind, "rows": 3, "read": [2, 0, 1], "view_first": "fluxes", "labels": ["c", "a", "b"]})
-    for kind, mech in it.product(seq_kinds + ["mc.steady_state", "mc.time_course"], ("nanrate", "nosteady", "zerodiv")):
+    # the y0= argument: applied to the model first, the row's own values on top
+    mc_kinds = ["mc.steady_state", "mc.time_course", "mc.protocol", "mc.protocol_time_course"]
+    for kind, tbl, y0 in it.product(seq_kinds + mc_kinds, ("par", "init", "both"), ("y", "xy")):
+        for read in ([0, 1], [1, 0]):
+            cases.append({"family": "seq", "model": "ia", "table": tbl, "kind": kind, "rows": 2, "read": read, "view_first": "variables", "y0": y0})
+    for kind, mech in it.product(seq_kinds + mc_kinds, ("nanrate", "nosteady", "zerodiv")):
         if mech == "nosteady" and not kind.endswith("steady_state"):
             continue
         for pos in range(3):
             modes = [False] if kind.startswith("mc.") else ([False, True] if tier == "thorough" or pos == 1 else [False])
             for parallel in modes:
                 cases.append({"family": "fail", "kind": kind, "mech": mech, "pos": pos, "rows": 3, "parallel": parallel})
-    par_kinds = seq_kinds + ["mc.steady_state", "mc.time_course", "mc.scan_steady_state"]
+    par_kinds = seq_kinds + mc_kinds + ["mc.scan_steady_state"]
     workers = (1, 2, 3, 16) if tier == "quick" else tuple(range(1, 17))
     for kind, w in it.product(par_kinds, workers):
         for rows in sorted({max(1, w - 1), w, w + 2} & {1, 2, 3, 4, 5}) or [3]:
@@ -456,7 +475,7 @@ PREDICATES = {"C09-zero-division-at-initial-state": lambda c: c.get("family") ==
 
 def run(ctx):
     cases = generate(ctx.tier)
-    seq = [c for c in cases if c["family"] == "seq" or (c["family"] == "fail" and not c.get("parallel") and not c["kind"].startswith("mc."))]
+    seq = [c for c in cases if not c["kind"].startswith("mc.") and (c["family"] == "seq" or (c["family"] == "fail" and not c.get("parallel")))]
     par = [c for c in cases if c not in seq]
     ctx.note(f"{len(seq)} sequential cases (lazy read orders, failing rows), {len(par)} cases on real worker pools")
     ctx.evaluate(seq, timeout=300)
